@@ -579,7 +579,12 @@ def register(reg):
         ensures=[('other-characters-are-left-to-the-rules', 'implies(result is None, not (s[pos] in self.keep_latex_chars))'),
                  ('a-latex-token-is-copied-through-unchanged',
                   'implies(result is not None, s[pos] in self.keep_latex_chars and result[0] >= 1 and '
-                  'pos + result[0] <= len(s) and result[1] == s[pos : pos + result[0]])')],
+                  'pos + result[0] <= len(s) and result[1] == s[pos : pos + result[0]])'),
+                 # "copying well-formed existing LaTeX tokens through": the whole token that the tokenizer reads at pos, of
+                 # whatever kind (macro with its trailing space, \\begin{name}, a brace, a comment ...), not a part of it
+                 ('exactly-the-one-token-that-stands-there',
+                  'implies(result is not None, last_token() is not None and last_token().pos == pos and '
+                  'pos + result[0] == last_token().pos_end)')],
         modifies=[]))
     units['_do_partial_latex_encode_step'] = FunctionUnit(c_part)
 
@@ -755,6 +760,14 @@ def search():
             pass
         except Exception as e:
             return "PartialLatexToLatexEncoder().unicode_to_latex(%r) raised %r" % (s, e)
+    # ... and copies each existing LaTeX token through whole (a \\begin{name} token is one token)
+    for rules, s, keep in [(["unicode-xml"], "\\begin{align*} a \u00e9 \\end{align*}", ["\\begin{align*}", "\\end{align*}"]),
+                           (["defaults"], "\\begin{my*env}x\\end{my*env} \\'e {\\it x}", ["\\begin{my*env}", "\\end{my*env}", "\\'e", "{\\it x}"])]:
+        got = PartialLatexToLatexEncoder(conversion_rules=rules + [UnicodeToLatexConversionRule(RULE_DICT, {ord("*"): "{\\ast}"})],
+                                         unknown_char_warning=False).unicode_to_latex(s)
+        for k in keep:
+            if k not in got:
+                return "PartialLatexToLatexEncoder(%r + [* -> {\\ast}]).unicode_to_latex(%r) = %r: the token %r was not copied through" % (rules, s, got, k)
 '''
 
 
